@@ -54,6 +54,13 @@
 //!   for decrypting the tap; [`decode_report_data`], [`decode_status_response`],
 //!   [`decode_subscribe_response`]; [`ImRig::im_state`], [`ImRig::planted_count`].
 //!
+//! * Chunked WriteRequests (property C06, sub-check `write-chunked`; see the end of this file):
+//!   [`encode_write_chunk`] (TimedRequest + MoreChunkedMessages flags), [`WriteChunk`],
+//!   [`write_chunked`] — (Timed request,) 2..n WriteRequest chunks on one exchange, each answered
+//!   by a WriteResponse, generated virtual delays between them; stops at the first chunk that
+//!   is not answered by a WriteResponse; returns [`ChunkedWriteOutcome`] (one
+//!   [`WriteChunkOutcome`] with virtual send / answer instants per chunk sent).
+//!
 //! Cost: about 0.3 ms per request (planted sessions, no handshakes). Nothing is leaked: all
 //! metadata lives in `Vec`s owned by the `SynthNode`, the rig is one `Box`, futures are boxed by
 //! the executor and dropped at the end of [`ImRig::run`].
@@ -2211,4 +2218,143 @@ impl<C: Crypto> ImRig<C> {
         let err = startup_error.into_inner();
         (stop, done.get(), err)
     }
+}
+
+// =================================================================================================
+// Chunked WriteRequests (added for C06 `write-chunked`)
+// =================================================================================================
+
+/// Like [`encode_write`], with the MoreChunkedMessages field (context tag 3; omitted when false).
+pub fn encode_write_chunk(items: &[WriteItem], timed_flag: bool, more_chunks: bool) -> Vec<u8> {
+    let mut e = Enc::new();
+    e.start_struct(Tag::Anon);
+    e.boolean(Tag::Ctx(0), false);
+    e.boolean(Tag::Ctx(1), timed_flag);
+    e.start_array(Tag::Ctx(2));
+    for i in items {
+        e.start_struct(Tag::Anon);
+        if let Some(dv) = i.dataver {
+            e.uint(Tag::Ctx(0), dv as u64);
+        }
+        enc_attr_path(&mut e, Tag::Ctx(1), &i.path, i.list_index);
+        i.value.encode(Tag::Ctx(2), &mut e);
+        e.end();
+    }
+    e.end();
+    if more_chunks {
+        e.boolean(Tag::Ctx(3), true);
+    }
+    e.uint(Tag::Ctx(0xff), IM_REV).end();
+    e.buf
+}
+
+/// One WriteRequest message of a chunked write.
+#[derive(Debug, Clone, PartialEq, Eq, Serialize, Deserialize)]
+pub struct WriteChunk {
+    pub items: Vec<WriteItem>,
+    /// the TimedRequest field of this chunk
+    pub timed_flag: bool,
+    /// virtual delay before this chunk is sent (after the previous answer arrived; for the first
+    /// chunk in addition to [`Timed::delay_us`])
+    pub delay_us: u64,
+}
+
+#[derive(Debug, Clone, Default, PartialEq)]
+pub struct WriteChunkOutcome {
+    pub statuses: Vec<WriteStatus>,
+    /// a StatusResponse was received instead of the WriteResponse
+    pub status: Option<u16>,
+    pub responded: bool,
+    pub error: Option<String>,
+    /// virtual instants (µs) when the chunk was sent and when its answer arrived
+    pub t_sent: u64,
+    pub t_answered: u64,
+}
+
+#[derive(Debug, Clone, Default, PartialEq)]
+pub struct ChunkedWriteOutcome {
+    /// status of the StatusResponse to the Timed request (if one was sent)
+    pub timed_status: Option<u16>,
+    /// virtual instants (µs) when the Timed request was sent / its status arrived (both = start
+    /// of the write if untimed)
+    pub t_timed_sent: u64,
+    pub t_timed_acked: u64,
+    /// one entry per chunk that was SENT (sending stops after the first chunk that is not
+    /// answered by a WriteResponse)
+    pub chunks: Vec<WriteChunkOutcome>,
+    /// the Timed phase failed (nothing was sent)
+    pub error: Option<String>,
+}
+
+/// (Timed request,) then the chunks as WriteRequests on the same exchange: all but the last with
+/// MoreChunkedMessages = true, each preceded by its virtual delay and followed by waiting for its
+/// answer. `on_chunk(i, outcome_i)` runs right after the answer to chunk `i` arrived (or failed
+/// to). Chunks after one that was not answered by a WriteResponse are not sent.
+pub async fn write_chunked(
+    ex: &mut Exchange<'_>,
+    timed: Option<Timed>,
+    chunks: &[WriteChunk],
+    on_chunk: &mut dyn FnMut(usize, &WriteChunkOutcome),
+) -> ChunkedWriteOutcome {
+    let mut out = ChunkedWriteOutcome::default();
+    if let Some(t) = &timed {
+        let mut times = [0u64; 4];
+        let r = do_timed(ex, t, &mut times).await;
+        out.t_timed_sent = times[0];
+        out.t_timed_acked = times[1];
+        match r {
+            Ok(s) => out.timed_status = Some(s),
+            Err(e) => {
+                out.error = Some(e);
+                return out;
+            }
+        }
+    } else {
+        out.t_timed_sent = clock::now();
+        out.t_timed_acked = out.t_timed_sent;
+    }
+    for (i, c) in chunks.iter().enumerate() {
+        if c.delay_us > 0 {
+            Timer::after(Duration::from_micros(c.delay_us)).await;
+        }
+        let mut co = WriteChunkOutcome { t_sent: clock::now(), ..Default::default() };
+        let more = i + 1 < chunks.len();
+        match send_msg(ex, OpCode::WriteRequest, &encode_write_chunk(&c.items, c.timed_flag, more)).await {
+            Err(e) => co.error = Some(e),
+            Ok(()) => match recv_msg(ex).await {
+                Err(e) => co.error = Some(e),
+                Ok((op, payload)) if op == OpCode::StatusResponse as u8 => match dec_status_resp(&payload) {
+                    Some(s) => co.status = Some(s),
+                    None => co.error = Some("undecodable StatusResponse".into()),
+                },
+                Ok((op, payload)) if op == OpCode::WriteResponse as u8 => {
+                    let parsed = tlv::parse(&payload).and_then(|(_, v)| {
+                        let mut st = Vec::new();
+                        for (_, s) in v.ctx(0)?.items() {
+                            let (path, li) = dec_attr_path(s.ctx(0)?)?;
+                            st.push(WriteStatus { path, list_index: li, status: dec_status_ib(s.ctx(1)?)? });
+                        }
+                        Some(st)
+                    });
+                    match parsed {
+                        Some(st) => {
+                            co.responded = true;
+                            co.statuses = st;
+                        }
+                        None => co.error = Some("undecodable WriteResponse".into()),
+                    }
+                }
+                Ok((op, _)) => co.error = Some(format!("unexpected IM opcode {op}")),
+            },
+        }
+        co.t_answered = clock::now();
+        on_chunk(i, &co);
+        let go_on = co.responded;
+        out.chunks.push(co);
+        if !go_on {
+            break;
+        }
+    }
+    let _ = select(ex.acknowledge(), Timer::after(Duration::from_secs(5))).await;
+    out
 }
